@@ -35,6 +35,12 @@ RULES = {
         (r"log_weights = log_weights\[idx\]|if not values_sorted", "fixed", "unsorted input path never exercised; now permuted (value, weight) pairs must give the same quantile"),
         (r"quantiles = np\.asarray|out=end_points|expand_dims", "equivalent", "same result for array input / one column / 1-d values"),
     ],
+    "C02": [
+        (r"self\.gradients\.append", "outside", "gradients are a plotting diagnostic"),
+        (r"swap first two arguments of logaddexp", "equivalent", "logaddexp is commutative"),
+        (r"increment: (Sub->Add|Add->Sub) \| info = ", "outside", "the information H belongs to the uncertainty, which C05 recomputes (C05_recompute_std_err); C02 speaks of log Z, volumes and weights"),
+        (r"logsubexp: Lt->LtE", "equivalent", "x = y would need two equal consecutive log-volumes; they decrease strictly for every representable nlive"),
+    ],
     "C10": [
         (r"check_vectorised_function", "outside", "how vectorisation is detected; whichever branch is then taken returns the pointwise values"),
     ],
